@@ -13,7 +13,8 @@ the same addresses `base, base+1, …` (records without upvalues are one 8-byte 
 scope), and a later `@` overwrites the record a pending task still points to: when that task becomes due,
 `call_indirect` runs whatever function index is stored there *now*.
 
-This file extends the WASM model by that memory (`mem : address ↦ fn index`, cells of records without upvalues).
+This file extends the WASM model by that memory (`mem : address ↦ fn index`, cells of records without upvalues: `M.run`;
+records `[fn][captured words…]` of any size: `R.run`, last section).
 At the `Env` interface `Task.id` is the function a call names; in the heap `Task.id` is the record's address;
 `TickRec.execd` records the function that was actually run.
 -/
